@@ -321,6 +321,28 @@ def rule_e_prop(ctx):
             R.inst(fn=b.path, site=c.where(), call=c.tname, verdict=("ok: " + how) if ok else "VIOLATION")
             if not ok:
                 R.viol(key, c.where(), "the Result of %s in %s is neither returned nor propagated with `?`: an allocation failure would be swallowed" % (c.tname, b.path))
+    # .. and none is invented: an `Err` that a fallible operation of the crate returns carries an error that hashbrown reported
+    for b in ctx.facts.bodies.values():
+        if b.kind == "Closure" or "TryReserveError" not in T[b.locals[0]["ty"]]["s"] or not T[b.locals[0]["ty"]]["s"].startswith("core::result::Result<"):
+            continue
+        for loc, st in b.all_assigns():
+            rv = st["rv"]
+            if b.is_cleanup(loc.bb) or rv["k"] != "aggregate" or rv.get("adt") != "core::result::Result" or rv.get("variant") != "Err":
+                continue
+            s_, args_ = b.slice_back(loc, rv["ops"][:1])
+            from_call = any(l.i == len(b.stmts(l.bb)) and b.term(l.bb)["k"] == "call" for l in s_) or bool(args_)
+            if not from_call:
+                # `match a.checked_add(b) { Some(n) => n, None => return Err(CapacityOverflow) }`: a size that cannot be represented is a failure
+                from rules_typestate import option_test_edges, N as N__
+                for c in ctx.calls(b):
+                    if c.method in ("checked_add", "checked_mul", "checked_sub", "checked_next_power_of_two") and c.dest is not None and not c.dest["proj"]:
+                        dl = c.dest["local"]
+                        for e, v in option_test_edges(ctx, b, lambda p_, dl=dl: p_.root == dl and not p_.fields(), ignore_debug=False).items():
+                            if v == N__ and (e[1] == loc.bb or e[1] in b.dom().get(loc.bb, set())) and b.preds(e[1], True) == [e[0]]:
+                                from_call = True
+            R.inst(fn=b.path, site=b.where(loc), builds="Err", verdict="ok: the error comes from a callee / a parameter" if from_call else "VIOLATION")
+            if not from_call:
+                R.viol("%s:invented-error" % b.path, b.where(loc), "%s returns an Err it made up itself (no callee reported it): the operation reports a failure that did not happen" % b.path)
     R.floor(3, "fallible calls")
     return R
 
